@@ -18,6 +18,21 @@ open Mxl
 theorem C03_table_invalidates (m : Gen.Mut) (h : mustInvalidate m = true) : Gen.invalidates m = true :=
   table_invalidates m h
 
+/-- Why `mustInvalidate` is the right list, from the source: `_create_cache` reads (directly or through calls on
+    `self`) ALL seven dictionaries, so every write matters; every mutator whose own body writes a dictionary or a
+    component stored in one is in `mustInvalidate` (hence decorated, `C03_table_invalidates`); the others write
+    nothing themselves — their script consists of checks, loads, rejecting statements and calls of other mutators. -/
+theorem C03_table_must_invalidate :
+    Gen.cacheReads = ["_data", "_derived", "_parameters", "_reactions", "_readouts", "_surrogates", "_variables"] ∧
+    (∀ m, writesItself m = true → mustInvalidate m = true) ∧
+    (∀ m, mustInvalidate m = false → ∀ e ∈ Gen.script m,
+      (match e with | .check _ | .call _ | .load _ | .guard _ => true | _ => false) = true) ∧
+    (∀ m, ∀ c ∈ Gen.containers m, c ∈ Gen.cacheReads) := by
+  refine ⟨rfl, ?_, ?_, ?_⟩
+  · intro m; cases m <;> decide
+  · intro m; cases m <;> decide
+  · intro m; cases m <;> decide
+
 /-- the id is taken before the container is written in every `add_*`; the own container is consulted
     before the id is freed in every `remove_*`; the validating forms validate before they write -/
 theorem C03_table_order :
